@@ -349,8 +349,8 @@ EndsDS(key) == Len(key) >= 2 /\ key[Len(key) - 1] = "." /\ key[Len(key)] = "$"
 Strip(key) == SubSeq(key, 1, Len(key) - 2)
 
 (* Only members whose name ends in ".$" are evaluated and renamed; every other member is copied
-   verbatim at any depth (its own sub-objects are walked).  A ".$" member whose value is not a
-   string, and two members that collide after renaming, are left open. *)
+   verbatim at any depth (its own sub-objects are walked).  An object with a ".$" member whose
+   value is not a string, or with two members that collide after renaming, is left open. *)
 RECURSIVE Walk(_, _, _)
 Walk(t, env, pos) ==
     IF t.t = "obj"
@@ -360,7 +360,8 @@ Walk(t, env, pos) ==
                         THEN (IF t.v[i].t = "dyn" THEN Eval(t.v[i].e, env, Append(pos, i)) ELSE Open)
                         ELSE (IF t.v[i].t = "dyn" THEN Open ELSE Walk(t.v[i], env, Append(pos, i)))]
              keys == [i \in 1..n |-> IF EndsDS(t.k[i]) THEN Strip(t.k[i]) ELSE t.k[i]]
-         IN IF AnyFails(vals) THEN FailOf(vals)
+         IN IF \E i \in 1..n : EndsDS(t.k[i]) # (t.v[i].t = "dyn") THEN Open       \* not a well-formed template object
+            ELSE IF AnyFails(vals) THEN FailOf(vals)
             ELSE IF \E i, j \in 1..n : i # j /\ keys[i] = keys[j] THEN Open
             ELSE JObj(keys, vals)
     ELSE IF t.t = "arr"
